@@ -1104,18 +1104,27 @@ func (ex *Exec) scanPtrTargets(e ast.Expr, info *types.Info, w *writes) {
 	// and scanInto treats &x as a write to x.
 }
 
+// famsForSelection adds the heap family written by an assignment through the selection: the leaves of the
+// root object type under the selected field path (finer than the whole type: other fields keep their values).
 func (ex *Exec) famsForSelection(bt types.Type, sel *types.Selection, w *writes) {
 	t := bt
+	root := types.Type(nil)
+	path := ""
 	for _, i := range sel.Index() {
 		if p, ok := t.Underlying().(*types.Pointer); ok {
-			w.fams["O|"+typeKey(p.Elem())+"|"] = true
+			root = p.Elem()
+			path = ""
 			t = p.Elem()
 		}
 		st, ok := t.Underlying().(*types.Struct)
 		if !ok {
 			return
 		}
+		path += "." + st.Field(i).Name()
 		t = st.Field(i).Type()
+	}
+	if root != nil {
+		w.fams["O|"+typeKey(root)+"|"+path] = true
 	}
 }
 
